@@ -36,7 +36,7 @@ ASSUMPTIONS = ["reference values of the collections are computed by the harness 
 BUDGET = {"quick": 45, "thorough": 500}
 FLOORS = {"quick": {"evaluations": 500, "distinct_nontrivial": 200,
                     "counters": {"compute_calls": 700, "persist_calls": 300, "optimize_calls": 300, "collections_compared": 700,
-                                 "scheduler_processes": 8, "scheduler_executor": 60, "traverse_false": 60,
+                                 "scheduler_processes": 8, "scheduler_executor": 60, "traverse_false": 60, "calls_with_repeated_collection": 40, "calls_with_only_bare_collections_repeated": 20,
                                  "dataclass_nodes": 150, "iterator_nodes": 150}},
           "thorough": {"evaluations": 12000, "distinct_nontrivial": 7000, "counters": {"compute_calls": 18000}}}
 EXHAUSTIVE_SPACE = None
@@ -83,7 +83,10 @@ def cases(tier, seed):
         r = rng.random()
         sched = "sync" if r < 0.45 else ("threads" if r < 0.78 else ("executor" if r < 0.97 else "processes"))
         yield {"seed": rng.randrange(2 ** 31), "depth": rng.choice((1, 2, 3, 4)), "traverse": rng.random() > 0.2,
-               "scheduler": sched, "optimize_graph": rng.random() < 0.6, "nargs": rng.randint(1, 3)}
+               "scheduler": sched, "optimize_graph": rng.random() < 0.6, "nargs": rng.randint(1, 3),
+               # the same collection passed more than once (as the same object), optionally with only bare collections
+               # as arguments: results are per ARGUMENT, not per distinct collection
+               "dup": rng.choice((None, None, None, "same", "all-coll"))}
 
 
 def shard_setup(tier, seed):
@@ -398,6 +401,20 @@ def run_case(case, ctx):
         a, b = g.node(case["depth"])
         args_lz.append(_box_iters(a))
         args_ref.append(b)
+    dup = case.get("dup")
+    if dup:
+        idx = [i for i, a in enumerate(args_lz) if _is_coll(a)]
+        if idx:
+            if dup == "all-coll":
+                args_lz, args_ref = [args_lz[i] for i in idx], [args_ref[i] for i in idx]
+                idx = list(range(len(args_lz)))
+            i = idx[case["seed"] % len(idx)]
+            pos = case["seed"] % (len(args_lz) + 1)
+            args_lz.insert(pos, args_lz[i])
+            args_ref.insert(pos, args_ref[i])
+            ctx.count("calls_with_repeated_collection")
+            if dup == "all-coll":
+                ctx.count("calls_with_only_bare_collections_repeated")
     trav = case["traverse"]
     ctx.nontrivial = (g.deep >= 2) if trav else (g.ncoll >= 1 and len(args_lz) >= 2)
     ctx.sig = (case["seed"], case["depth"], trav, case["scheduler"], case["optimize_graph"], case["nargs"])
